@@ -200,7 +200,7 @@ def exec_auth(case):
             live_up = sorted(kx for kx, u in uploads.items() if u["written"] < u["size"])
             if live_up and (method == "PATCH" or path.endswith("/abort")) and x % 10 < 7:
                 si_i, sh = live_up[x % len(live_up)]        # aim at an upload that is really in progress
-            target_si = mut_si if ("mutable" in path and mut_si is not None and x % 4) else si_of(si_i)
+            target_si = mut_si if ("/mutable/" in path and mut_si is not None and x % 4) else si_of(si_i)
             path = path.format(si=si_b2a(target_si).decode("ascii"), sh=sh)
             hdrs = Headers()
             good_auth = swissnum_auth_header(SWISS)
@@ -237,12 +237,12 @@ def exec_auth(case):
                 xa("upload-secret", other_secret)
                 xa("upload-secret", own_upload_secret)
             elif xauth == "other-upload":
-                if "mutable" not in path:
+                if "/mutable/" not in path:
                     xa("upload-secret", other_secret)      # (a surplus secret would get the mutable request refused for that alone)
                 if method == "POST" and "immutable" in path:
                     xa("lease-renew-secret", good_secret("renew", 1))
                     xa("lease-cancel-secret", good_secret("cancel", 1))
-                if "mutable" in path:
+                if "/mutable/" in path:
                     xa("write-enabler", secret_of("we", 12345))
                     xa("lease-renew-secret", good_secret("renew", 2))
                     xa("lease-cancel-secret", good_secret("cancel", 2))
@@ -284,6 +284,8 @@ def exec_auth(case):
                 hdrs.addRawHeader("Content-Range", "bytes 0-9/*")
             hdrs.addRawHeader("Accept", "application/cbor")
             before = tree_digest(rig.ss, rig.http)
+            # in-progress uploads as the server holds them (whoever started them), with the secret each was started under
+            rig_uploads_before = {si_: dict(v_.upload_secrets) for si_, v_ in rig.http._uploads._uploads.items()}
             code, rbody = rig.raw(method, path, hdrs, body)
             after = tree_digest(rig.ss, rig.http)
             probe("attack-%s-%s" % (auth, "correct-secrets" if correct_secrets else "bad-secrets"))
@@ -301,7 +303,9 @@ def exec_auth(case):
                             bad("share-data-leaked", "%s %s with Authorization=%s returned share bytes" % (method, path, auth))
             elif not correct_secrets:
                 required_some = method in ("PATCH", "POST", "PUT") and not path.endswith("corrupt")
-                if xauth == "other-upload" and up and up["written"] < up["size"] and (method == "PATCH" or path.endswith("/abort")):
+                srv_ups = rig_uploads_before.get(target_si)
+                live_secret = srv_ups.get(sh) if srv_ups else None
+                if xauth == "other-upload" and live_secret is not None and live_secret != other_secret and (method == "PATCH" or path.endswith("/abort")):
                     probe("attack-other-upload-secret-on-live-upload")
                     if after != before:
                         bad("foreign-secret-touched-upload", "%s %s with another upload's secret changed an in-progress upload (response %r)" % (method, path, code))
